@@ -1,4 +1,5 @@
 import LJT.Proofs.Robust
+import LJT.Proofs.ScanScript
 /-! # C17 - the compressor never crashes or emits bad output for any parameter combination
 
 The decision logic that can be stated on the model: the size bound that keeps
@@ -36,5 +37,26 @@ theorem compressor_tables_are_decodable (isDC lossless : Bool) (t : Tbl) (c : CD
 /-- non-vacuity: the bound is tight enough to matter - 63 pending bits and 1984 block bits
 need 510 of the 512 bytes -/
 example : 2 * ((63 + 31 * 64) / 8) = 510 ∧ Gen.Src.jchuff_BUFSIZE = 512 := by decide
+
+
+open LJT.ScanScript in
+/-- **Scan scripts: what the compressor accepts, its own decoder reads without complaint.**  `validate_script`
+of jcmaster.c and the progression checks of `start_pass_phuff_decoder` of jdphuff.c are modelled line by line
+(Model/ScanScript.lean) and tied to the real functions by the `vscript` operation (valid, mutated and hostile
+scripts: error code, offending scan number, selected mode, and the warnings of the real decoder on the file
+written).  For EVERY script - any number of scans, any `comps_in_scan` and component indexes, any `Ss Se Ah
+Al`, any component count, 8- or 12-bit - that `validate_script` accepts as progressive, the decoder raises
+neither `JERR_BAD_PROGRESSION` nor a single `JWRN_BOGUS_PROGRESSION` when it meets the scans in that order. -/
+theorem accepted_scan_script_is_decodable (prec nc : Nat) (scans : List ScanScript.Scan)
+    (h4 : ∀ s ∈ scans, s.idx.length = 4)
+    (h : validateScript prec nc scans = .ok .progressive) : decRun scans BitPos.init 0 = some 0 :=
+  accepted_progressive_script_decodes prec nc scans h4 h
+
+-- non-vacuity: the script of jpeg_simple_progression for one component is accepted as progressive
+open LJT.ScanScript in
+example : (match validateScript 8 1 [⟨1, [0, 0, 0, 0], 0, 0, 0, 1⟩, ⟨1, [0, 0, 0, 0], 1, 5, 0, 2⟩, ⟨1, [0, 0, 0, 0], 6, 63, 0, 2⟩,
+    ⟨1, [0, 0, 0, 0], 1, 63, 2, 1⟩, ⟨1, [0, 0, 0, 0], 0, 0, 1, 0⟩, ⟨1, [0, 0, 0, 0], 1, 63, 1, 0⟩] with
+    | .ok .progressive => true | _ => false) = true := by
+  decide +kernel
 
 end LJT.Props.C17
